@@ -152,6 +152,48 @@ def run(ctx):
         except ValueError:
             pass
 
+    # shard iteration is bounded by NUM_SHARDS itself: a truncated quotient of it (NUM_SHARDS / workers rounds) silently drops the tail
+    # shards whenever the worker count does not divide the shard count
+    n_idx = 0
+    for name in ("execute_dynamic_per_worker", "execute_dynamic_per_shard", "execute_static_per_worker", "execute_static_per_shard", "execute_dedicated_per_shard"):
+        f = prog.fn(EXEC + name)
+        for body in [f] + [prog.fns[c] for c in prog.closures_in(f.id)]:
+            og = body.origins()
+            idx_locals = set()
+            for bi, pl, line in places_read_in(body):
+                if "VirtualShard" in body.locals[pl[0]]:
+                    for e in pl[1]:
+                        if isinstance(e, list) and e[0] == "i":
+                            idx_locals.add((e[1], line))
+            for (il, line) in sorted(idx_locals):
+                t = {"args": [None, {"c": [il, []]}], "line": line}
+                from ..engine import resolve_upvars
+                atoms = og.of_operand(t["args"][1], deep=True)
+                g = body
+                while g.is_closure():
+                    atoms = resolve_upvars(g, atoms, True)
+                    g = prog.fns.get(g.rec.get("parent"))
+                    if g is None:
+                        break
+                # helper iterators (`static_round_robin_shards(..)`): include what the helper's return value derives from
+                extra = set()
+                for a in atoms:
+                    if a.kind == "call" and a.key[0] in prog.fns:
+                        h = prog.fns[a.key[0]]
+                        for hb in [h] + [prog.fns[c2] for c2 in prog.closures_in(h.id)]:
+                            for x in hb.origins().of_local(0, deep=True):
+                                extra.add(x)
+                atoms = set(atoms) | extra
+                ns = [a for a in atoms if a.kind == "const" and "NUM_SHARDS" in str(a.key)]
+                if not ns:
+                    continue
+                n_idx += 1
+                lossy_only = all(any(isinstance(s_, str) and s_.startswith("op:") for s_ in a.steps) for a in ns)
+                rep.check(not lossy_only, "C02.R2", "shard-bound:%s" % name, "shard ids are bounded by NUM_SHARDS itself",
+                          "%s indexes shards with ids bounded only by a truncated quotient of NUM_SHARDS: tail shards are never executed when the worker count does not divide it" % name,
+                          site=body.loc(t.get("line")))
+    rep.check(n_idx >= 2, "C02.R2", "shard-bound:sites", "%d shard-index sites bounded by NUM_SHARDS examined" % n_idx, "only %d shard-index sites found" % n_idx, site=EXEC)
+
     # ---- R3
     for name in ("execute_dynamic_per_shard", "execute_static_per_shard", "execute_dedicated_per_shard"):
         f = prog.fn(EXEC + name)
